@@ -209,17 +209,19 @@ structure StepResult where
   flavs : List (List Flav)      -- flavors each stack holds after `Eups.__init__`
   view : Spec                   -- the in-memory stacks after `Eups.__init__`
   trace : List Eff
+  would : List Msg              -- what the command reports it would do (meaningful for dry runs)
   w : World
 
 def stepG (fixed : Bool) (w : World) : WCmd → StepResult
-  | .rmCache u s f => ⟨.ok, false, [], Spec.empty, [], { w with caches := rmCache w.caches u s f }⟩
+  | .rmCache u s f => ⟨.ok, false, [], Spec.empty, [], [], { w with caches := rmCache w.caches u s f }⟩
   | .run u c crash =>
     let (m, fl, w1) := load w u c.self
     let (out, p) := run w.nst c ⟨w1.db, m, w1.dirs, []⟩
     let cut : List Eff × Option Eff := match crash with
       | none => (p.tr, none)
       | some k => cutAfterDb p.tr k
-    ⟨out, cut.2.isSome, fl, m, cut.1 ++ cut.2.toList, replay fixed u (w1, m) cut.1 cut.2⟩
+    ⟨out, cut.2.isSome, fl, m, cut.1 ++ cut.2.toList, wouldDo w.nst c ⟨w1.db, m, w1.dirs, []⟩,
+     replay fixed u (w1, m) cut.1 cut.2⟩
 
 def step (w : World) (c : WCmd) : World := (stepG true w c).w
 def stepPinned (w : World) (c : WCmd) : World := (stepG false w c).w
